@@ -67,7 +67,7 @@ fn write_summary(path: &str, prop: &str, st: &Stats, wall: f64, extra: Value) {
         "tolerated_accepted": st.tol_ok, "tolerated_rejected": st.tol_rej,
         "mutants_by_edit_kind": by_edit,
         "nviol": st.nviol, "violations": viol, "samples": st.samples,
-        "advisory_variant_total": st.variant_total, "advisory_variant_agree": st.variant_agree,
+        "primed_presentations": st.primed, "prime_failed": st.prime_failed, "advisory_variant_total": st.variant_total, "advisory_variant_agree": st.variant_agree,
         "advisory_variant_disagree": st.variant_disagree,
         "wall_s": wall, "extra": extra,
     });
@@ -359,7 +359,10 @@ fn run_builder_cmd(args: &[String]) -> i32 {
                             continue;
                         }
                         let _ = nbuild;
-                        let inst = builder_run::make_binst(&mut r, i + pr.v as usize);
+                        let mut inst = builder_run::make_binst(&mut r, i + pr.v as usize);
+                        if beh.layer == "generic" && i % 11 == 7 {
+                            builder_run::timekey_variant(&mut inst);
+                        }
                         let km = conc::random_keymat(&mut r, i);
                         let ops = builder_run::run_behaviour(pr, beh, &inst, &km, &mut book);
                         lines.push(json!({"id": format!("{}:{}", i, pr.name()), "layer": beh.layer, "pr": pr.name(), "ops": ops}).to_string());
@@ -424,7 +427,10 @@ fn run_builder_cmd(args: &[String]) -> i32 {
                         let beh = builder_run::random_behaviour(&mut r, &family, maxlen);
                         let protos = Proto::all();
                         let pr = if i % 3 == 0 { protos[i / 3 % 8] } else { Proto::new(4, if i % 2 == 0 { "local" } else { "public" }) };
-                        let inst = builder_run::make_binst(&mut r, i);
+                        let mut inst = builder_run::make_binst(&mut r, i);
+                        if beh.layer == "generic" && i % 11 == 7 {
+                            builder_run::timekey_variant(&mut inst);
+                        }
                         let km = conc::random_keymat(&mut r, i);
                         let ops = builder_run::run_behaviour(pr, &beh, &inst, &km, &mut book);
                         lines.push(json!({"id": format!("r{}:{}", i, pr.name()), "layer": beh.layer, "pr": pr.name(), "ops": ops}).to_string());
